@@ -3249,8 +3249,10 @@ class StateRetainer:
         ``backUp()`` or ``restoreBackup()``.
         """
         paramDefs = set()
+        ownMaterial = getattr(self.composite, "material", None)
         items = itertools.chain(
             (self.composite,),
+            (ownMaterial,) if ownMaterial is not None else (),
             self.composite.iterChildrenWithMaterials(deep=True),
         )
         for child in items:
